@@ -8,6 +8,7 @@
    a submitted batch is UNil | UEmpty | UB contents (equal contents = equal ids, and may recur freely). *)
 From Coq Require Import NArith List Bool.
 From Verif Require Import Model.Queue Proofs.QueueProofs.
+From Verif Require Proofs.GoLiteQueueRefine.
 Import ListNotations.
 Open Scope N_scope.
 
@@ -151,3 +152,22 @@ Example ex_large_submission :
   r_outputs 2 h = [Some ROk; Some ROk; Some RFull; None; Some (RBatch 5); None; Some (RBatch 8); Some REmpty] /\
   r_wlog 2 r_st0 h = [WPut 0 5; WPut 1 8; WDel 0; WDel 1].
 Proof. vm_compute. repeat split; reflexivity. Qed.
+
+(* REFINEMENT FROM TRANSLATED CODE.  A history whose operations are executed by the Go functions themselves —
+   Sequencer.SubmitBatchTxs / GetNextBatch with BatchQueue.AddBatch / Next / batchKey underneath, translated from
+   /repo's source on every run (coq/gen/GoLiteFuns.v) and evaluated by Model/GoLite.v — is, step for step, a
+   history of the model ([go_run_is_r_run]); hence it is the exactly-once FIFO of the specification: every result is
+   the specification's, the in-memory queue and the durable records are exactly the pending batches in acceptance
+   order.  Process starts (BatchQueue.Load, a loop over a datastore query) and crash cuts are the model's. *)
+Theorem C10_translated_code_refines_model_full : forall me max h rst,
+  GoLiteQueueRefine.go_run me max rst h = Some (r_run max rst h).
+Proof. exact GoLiteQueueRefine.go_run_is_r_run. Qed.
+Print Assumptions C10_translated_code_refines_model_full.
+
+Theorem C10_translated_code_is_fifo_full : forall me max h,
+  exists rst outs, GoLiteQueueRefine.go_run me max r_st0 h = Some (rst, outs) /\
+    outs = s_outputs max h /\
+    map snd (mem (core rst)) = s_final max h /\
+    map snd (db (core rst)) = s_final max h.
+Proof. exact GoLiteQueueRefine.go_run_fifo. Qed.
+Print Assumptions C10_translated_code_is_fifo_full.
